@@ -1144,10 +1144,91 @@ fn run_mode(args: &Args, mode: Mode, name: &str, property: &str, depth: (usize, 
     if mode == Mode::Violations {
         huge_sizes(&mut part);
     }
+    if mode == Mode::Content || mode == Mode::Listeners {
+        flood(mode, &mut part);
+    }
     part.finish(args.out.as_deref());
 }
 
 /// Announced body sizes that cannot be allocated: each in a child process (abort detection).
+/// An addressee that does not read its queue delays nobody and loses nothing: `K` messages are
+/// fed to a consumer / return listener / confirm listener nobody drains (on its own thread: a
+/// dispatch that blocks on a full queue would otherwise hang the check), the replies of the
+/// same channel keep flowing, and afterwards the queue holds all `K`, in order.
+fn flood(mode: Mode, part: &mut Part) {
+    const K: usize = 2000;
+    let (tx, rx) = std::sync::mpsc::channel::<Result<(), (String, String)>>();
+    std::thread::spawn(move || {
+        let r = std::panic::catch_unwind(move || -> Result<(), (String, String)> {
+            let mut real = Real::new();
+            let mut rf = RefConn::new();
+            for n in [1u16, 2] {
+                real.probe.open_slot(Some(n)).map_err(|e| ("flood:setup".to_string(), format!("{:?}", e)))?;
+                real.opened.insert(n);
+                rf.open(n);
+            }
+            let all: Vec<u16> = vec![0, 1, 2];
+            let _ = real.probe.take_outbuf();
+            let setup: Vec<Ev> = if mode == Mode::Content { vec![Ev::ConsumeOk(1, 0), Ev::CliListenReturns(1)] } else { vec![Ev::CliListenConfirms(1)] };
+            for ev in setup {
+                if let Judged::Violation(k, d) = judge_step(&mut real, &mut rf, ev, &all) {
+                    return Err((format!("flood:setup:{}", k), d));
+                }
+            }
+            let ex = Expect::default();
+            let feed = |real: &mut Real, ev: Ev| -> Result<(), (String, String)> { real.apply(ev, &ex).0.map_err(|e| ("flood:error".to_string(), format!("{:?} ended the connection with {} while its addressee was not reading", ev, err_name(&e)))) };
+            for i in 0..K {
+                if mode == Mode::Content {
+                    feed(&mut real, Ev::Deliver(1, 0))?;
+                    feed(&mut real, Ev::Header(1, 0, false))?;
+                    feed(&mut real, Ev::Return(1))?;
+                    feed(&mut real, Ev::Header(1, 0, true))?;
+                } else {
+                    feed(&mut real, if i % 2 == 0 { Ev::Ack(1, 1, false) } else { Ev::Nack(1, 2, true) })?;
+                }
+                // ... and the channel's replies are not held up
+                if i % 500 == 0 {
+                    feed(&mut real, Ev::QosOk(1))?;
+                    let (replies, _) = real.probe.drain_replies(1);
+                    if replies.len() != 1 {
+                        return Err(("flood:reply-delayed".to_string(), format!("{} replies on channel 1 after a QosOk behind {} unread messages", replies.len(), i)));
+                    }
+                }
+            }
+            let counts: Vec<(String, usize)> = if mode == Mode::Content {
+                vec![("consumer".to_string(), real.consumers.values().map(|rx| rx.try_iter().filter(|m| show_msg(m).starts_with("Delivery tag=40 ")).count()).sum()), ("return listener".to_string(), real.returns.values().map(|rx| rx.try_iter().count()).sum())]
+            } else {
+                let all: Vec<String> = real.confirms.values().flat_map(|rx| rx.try_iter().map(|c| format!("{:?}", c)).collect::<Vec<_>>()).collect();
+                let in_order = all.iter().enumerate().all(|(i, c)| c.starts_with(if i % 2 == 0 { "Ack" } else { "Nack" }));
+                if !in_order {
+                    return Err(("flood:order".to_string(), "confirms of an unread listener out of order".to_string()));
+                }
+                vec![("confirm listener".to_string(), all.len())]
+            };
+            for (who, n) in counts {
+                if n != K {
+                    return Err(("flood:lost".to_string(), format!("{} messages were sent to a {} that was not reading; its queue holds {}", K, who, n)));
+                }
+            }
+            Ok(())
+        });
+        let _ = tx.send(match r {
+            Ok(x) => x,
+            Err(e) => Err(("flood:panic".to_string(), crate::slots::panic_msg(&e))),
+        });
+    });
+    let verdict = match rx.recv_timeout(std::time::Duration::from_secs(60)) {
+        Ok(v) => v,
+        Err(_) => Err(("flood:blocked".to_string(), format!("feeding {} messages to an addressee that does not read its queue did not finish within 60 s: the dispatch blocks on a full queue and with it every other channel", K))),
+    };
+    part.evaluations += 1;
+    part.distinct_nontrivial += 1;
+    part.extra.insert("flood_messages".into(), json!(K));
+    if let Err((k, d)) = verdict {
+        part.violation(&k, d, json!({"engine":"seqx","check":"dispatch","mode":"flood"}));
+    }
+}
+
 fn huge_sizes(part: &mut Part) {
     let exe = std::env::current_exe().unwrap();
     let sizes: Vec<u64> = vec![1 << 31, (1 << 32) - 1, 1 << 32, 1 << 40, 1 << 63, u64::MAX];
@@ -1229,6 +1310,10 @@ pub fn replay(v: &Value) -> bool {
     std::panic::set_hook(Box::new(|_| {}));
     if v["mode"] == "huge" {
         println!("re-run: seqx dispatch-huge-child {}", v["size"]);
+        return false;
+    }
+    if v["mode"] == "flood" {
+        println!("re-run: seqx dispatch-content / dispatch-listeners (the flood child runs at the end)");
         return false;
     }
     let mode = match v["mode"].as_str().unwrap() {
